@@ -3,7 +3,7 @@
 # usage: mutant_matrix.sh [ids...]   -> writes /verif/seeded/MATRIX.txt lines "<seed> <prop> CAUGHT|MISSED <first line>"
 cd /verif
 OUT=${MATRIX_OUT:-/verif/seeded/MATRIX.txt}
-IDS=${@:-$(ls seeded | grep -E '^C[0-9]+[a-r]$')}
+IDS=${@:-$(ls seeded | grep -E '^C[0-9]+[a-s]$')}
 one() {
   id=$1; prop=${id:0:3}
   [ -f /verif/harness/props/$(echo $prop | tr A-Z a-z).py ] || { echo "$id $prop NOCHECK"; return; }
